@@ -21,6 +21,7 @@ SAN_ENV = {
 # ------------------------------------------------------------------------------------------------
 # harness registry (name -> build recipe)
 harness("c08_symbols", "san", "pbt/c08_symbols.cc", link="-lrapidcheck")
+harness("geom_pbt", "san", "pbt/geom_pbt.cc", link="-lrapidcheck")
 
 # ------------------------------------------------------------------------------------------------
 
@@ -180,31 +181,29 @@ def confirm_failures(prop, res):
     return confirmed
 
 
-def probe_known(prop, probes):
-    """probes: {finding id: (exe, mode)}; prints KNOWN-FINDING lines for open findings that still reproduce."""
+def probe_known(prop):
+    """Replays the recorded failing case of every open finding of `prop`; prints a KNOWN-FINDING line for each
+    one that still fails (a finding that no longer reproduces prints nothing)."""
     hits = []
     for f in open_findings(prop):
-        fid = f["id"]
-        if fid not in probes:
+        pr = f.get("probe")
+        if not pr:
             continue
-        exe, mode = probes[fid]
-        env = dict(os.environ)
-        env.update(SAN_ENV)
-        env["VERIF_OPEN"] = ""
-        try:
-            r = subprocess.run([exe, "--mode", mode, "--probe", fid], env=env, capture_output=True, text=True,
-                               errors="replace", timeout=600)
-            still = r.returncode != 0
-        except subprocess.TimeoutExpired:
-            still = True
-        if still:
-            print("KNOWN-FINDING: property=%s %s: %s" % (prop, fid, f["description"]))
-            hits.append(fid)
+        exe = ensure_built([pr["harness"]])[pr["harness"]]
+        path = os.path.join(VERIF, pr["replay"])
+        fails = 0
+        for _ in range(2):
+            ok, out = replay_once(exe, pr["mode"], path, timeout=900)
+            if ok is not True:
+                fails += 1
+        if fails == 2:
+            print("KNOWN-FINDING: property=%s %s: %s" % (prop, f["id"], f["description"]))
+            hits.append(f["id"])
     return hits
 
 
-def finish(prop, tier, res, t0, level="exploration", assumptions=None, probes=None, min_nontrivial=2):
-    known_hits = probe_known(prop, probes or {})
+def finish(prop, tier, res, t0, level="exploration", assumptions=None):
+    known_hits = probe_known(prop)
     confirmed = confirm_failures(prop, res)
     cov = dict(evaluations=res.evaluations, distinct_nontrivial=len(res.nontrivial),
                rule=" | ".join(res.rules), samples=res.samples[:6], classes=dict(sorted(res.classes.items())),
@@ -240,19 +239,57 @@ def check_c08(tier):
     cases = 1000 if tier == "quick" else 30000
     run_shards(res, "C08", "c08_symbols", exe, "c08", tier, 16, cases)
     res.required_classes = ["scheme_tagged", "scheme_raw", "second_block", "components_4", "maxbits_25_32"]
-    return finish("C08", tier, res, t0, probes={"E1": (exe, "c08")},
+    return finish("C08", tier, res, t0,
                   assumptions=["magnitudes above the stated memory cap are not generated for the raw scheme "
                                "(the encoder allocates O(max value) counters)",
                                "lengths up to 5000 (quick) / 100000 (thorough)"])
 
 
+GEOM_ASSUME = ["quantization above 26 bits only through explicit boxes with data near the origin, 32-bit integer "
+               "values within 2^21 (quick) / 2^26 (thorough): the encoder's entropy estimate costs O(largest symbol) "
+               "memory and time",
+               "open known findings are avoided by construction (see open_findings_excluded_by_construction and "
+               "the excluded_* class counters)"]
+
+
+def check_geom(prop, mode, tier, quick_cases, thorough_cases, required):
+    t0 = time.time()
+    exe = ensure_built(["geom_pbt"])["geom_pbt"]
+    res = Result()
+    cases = quick_cases if tier == "quick" else thorough_cases
+    run_shards(res, prop, "geom_pbt", exe, mode, tier, 16, cases)
+    res.required_classes = required
+    return finish(prop, tier, res, t0, assumptions=GEOM_ASSUME)
+
+
+def check_c01(tier):
+    return check_geom("C01", "c01", tier, 3500, 30000,
+                      ["method_mesh_sequential", "method_mesh_edgebreaker", "method_pc_sequential", "method_pc_kdtree",
+                       "edgebreaker_traversal_0", "edgebreaker_traversal_2", "att_quantized_float",
+                       "att_octahedral_normals", "att_integer", "att_raw_float", "mesh_with_attribute_seam_or_split_vertex",
+                       "mesh_non_manifold_edge", "mesh_with_degenerate_face", "mesh_with_isolated_point",
+                       "builtin_compression_off", "split_on_seams_on", "sequential_compressed_connectivity",
+                       "points_ge_256"])
+
+
+def check_c09(tier):
+    return check_geom("C09", "c09", tier, 3000, 30000,
+                      ["counts_compared", "method_mesh_edgebreaker", "method_mesh_sequential", "method_pc_kdtree",
+                       "mesh_with_attribute_seam_or_split_vertex", "mesh_non_manifold_edge",
+                       "mesh_with_degenerate_face", "mesh_with_isolated_point"])
+
+
 CHECKS = {
+    "C01": check_c01,
     "C08": check_c08,
+    "C09": check_c09,
 }
 
 REPLAYERS = {
     # property -> list of (harness, default mode)
+    "C01": [("geom_pbt", "c01")],
     "C08": [("c08_symbols", "c08")],
+    "C09": [("geom_pbt", "c09")],
 }
 
 
